@@ -43,6 +43,12 @@ claim("C03", "model-based property testing over module load orders and lock/conf
       "session implies U was not locked / was confirmed in storage before the request; a probe behind lock.Middleware / confirm.Middleware ran only for an unlocked / confirmed session user.",
       TRUST)
 
+claim("C04", "model-based property testing against an independent reference automaton (rapid), virtual time by ageing stored instants",
+      WM + "lock machine: LockAfter 1-6, windows 20 s-24 h, durations 5 s-48 h; right/wrong password, OTP and 2FA code, manual lock/unlock, gaps on either side of LockWindow/LockDuration. "
+      "Oracle: a reference automaton written from the statement (count restarts after a pause or a completed login, lock when count reaches LockAfter for LockDuration from the triggering failure, "
+      "correct credentials never count, unlock clears both); after every request the stored count, lock deadline and last-attempt stamp and the accept/refuse outcome must equal the model (interval-time semantics).",
+      TRUST + " Behaviour exactly at a threshold instant (< vs <=) is out of scope.")
+
 NOT_YET = "check not built yet in this round (claimed in DESIGN.md; will be claimed once its check is committed)"
 
 def main():
